@@ -121,6 +121,38 @@ CHECKS = {
         note="Bound: names <= 4 chars quick / 6 thorough. Assumes BASIC09 identifier comparison is case-insensitive, ASCII reading of regex classes, record field names are a separate namespace. The set of generated identifiers is lexed from real output of one program that uses every generator. Trusted: z3, rxsmt translation (self-checked against re.fullmatch on models).",
         design="DESIGN.md §3 E2/E5, §5 C09",
     ),
+    "C16": dict(
+        engine="pysym",
+        category=MC,
+        technique="AST-level symbolic execution of the real decoder source over z3 32-bit vectors with interval tracking (vf/pysym.py), per-path comparison with declarative reference decoders, sat models replayed on the real function",
+        text='For HRS (several widths/heights/skips), PIX, MAX/ART in all nine pixel modes (standard and Newsroom headers), uncompressed MGE with RGB and composite palettes, raw CM3 lines in one- and two-page files with and without pattern block, and uncompressed VEF of the three types, the real decoder source is executed symbolically on a stream of symbolic bytes; for every path z3 proves, sample by sample, that what was written equals the declarative reference (palette entry -> six-bit colour formula, both nibbles / all bit pairs / all bits of every byte) for ALL palette and pixel byte values. The 64-entry VEF palette is proved equal to the colour formula for all 64 codes.',
+        note="Bounds: small symbolic streams (sizes in the case names), run lengths unrolled to 3 plus the boundary values 0/127/128/129/255 with the count pinned; fixed-size formats (MGE, RAT, CM3, VEF) are executed on prefixes - the loop bodies are uniform - and, for C19, on concrete truncation sweeps of one well-formed file through the real decoder. Stubs: latin-1 identity of iotostr/strtoio/pack, short reads at end of file, ord('') raises, sys.exit / exceptions = failure reported, png.Writer records its arguments, PIL resize is a no-op. Trusted: reference decoders in vf/decsuite.py (CoCo 3 six-bit colour formula, nibble / bit-pair layouts, MAX mode tables and YIQ formula in scaled integers, pinned copy of the MGE composite table), z3.",
+        design="DESIGN.md §3 E1, §5 C16",
+    ),
+    "C17": dict(
+        engine="pysym",
+        category=MC,
+        technique="AST-level symbolic execution of the real decoder source over z3 32-bit vectors with interval tracking (vf/pysym.py), per-path comparison with declarative reference decoders, sat models replayed on the real function",
+        text='Run-length MGE, escape-coded RAT, CM3 lines coded against the previous byte and the line above (six concrete control-bit patterns incl. copy-left at column 0 after a line with different first/last bytes, data bytes symbolic), veftopng.unsquash and a squashed VEF: the real decoder and a reference decoder are both executed symbolically (control bytes symbolic, forking on the same stream); on every path z3 proves equal pixels for all byte values. Run counts pinned to 0/127/128/129/255 are unrolled completely.',
+        note="Bounds: small symbolic streams (sizes in the case names), run lengths unrolled to 3 plus the boundary values 0/127/128/129/255 with the count pinned; fixed-size formats (MGE, RAT, CM3, VEF) are executed on prefixes - the loop bodies are uniform - and, for C19, on concrete truncation sweeps of one well-formed file through the real decoder. Stubs: latin-1 identity of iotostr/strtoio/pack, short reads at end of file, ord('') raises, sys.exit / exceptions = failure reported, png.Writer records its arguments, PIL resize is a no-op. Trusted: reference decoders in vf/decsuite.py (CoCo 3 six-bit colour formula, nibble / bit-pair layouts, MAX mode tables and YIQ formula in scaled integers, pinned copy of the MGE composite table), z3.",
+        design="DESIGN.md §3 E1, §5 C17",
+    ),
+    "C18": dict(
+        engine="pysym",
+        category=MC,
+        technique="AST-level symbolic execution of the real decoder source over z3 32-bit vectors with interval tracking (vf/pysym.py), per-path comparison with declarative reference decoders, sat models replayed on the real function",
+        text='For every width 1..8 (12) x height 1..2 x skip 0..2 of HRS, every file size 0..8 (18) of PIX and MAX with option / header-derived / Newsroom geometry (symbolic header bytes): on every successful path z3 decides that the announced size is the one the options or header dictate and that exactly width*height(*3) samples were written, under the premise that the file holds all announced rows; skipping N bytes is compared with decoding the tail.',
+        note="Bounds: small symbolic streams (sizes in the case names), run lengths unrolled to 3 plus the boundary values 0/127/128/129/255 with the count pinned; fixed-size formats (MGE, RAT, CM3, VEF) are executed on prefixes - the loop bodies are uniform - and, for C19, on concrete truncation sweeps of one well-formed file through the real decoder. Stubs: latin-1 identity of iotostr/strtoio/pack, short reads at end of file, ord('') raises, sys.exit / exceptions = failure reported, png.Writer records its arguments, PIL resize is a no-op. Trusted: reference decoders in vf/decsuite.py (CoCo 3 six-bit colour formula, nibble / bit-pair layouts, MAX mode tables and YIQ formula in scaled integers, pinned copy of the MGE composite table), z3.",
+        design="DESIGN.md §3 E1, §5 C18",
+    ),
+    "C19": dict(
+        engine="pysym",
+        category=MC,
+        technique="AST-level symbolic execution of the real decoder source over z3 32-bit vectors with interval tracking (vf/pysym.py), per-path comparison with declarative reference decoders, sat models replayed on the real function",
+        text='Every stream length 0..20 of an HRS file, 0..7 of MAX files (symbolic header bytes, with and without -i, given or derived rows, Newsroom), short MGE / RAT / CM3 / VEF streams with symbolic header and control bytes: every path must end in a reported failure or in a complete image - z3 decides, per successful path, that the sample count equals the announced size (and that a bad first MAX header byte is not accepted). Concrete truncation sweeps of one well-formed MGE, RAT, CM3 and VEF file (every length near each structural boundary, overshooting runs, literal groups overrunning their record) run through the real decoders.',
+        note="Bounds: small symbolic streams (sizes in the case names), run lengths unrolled to 3 plus the boundary values 0/127/128/129/255 with the count pinned; fixed-size formats (MGE, RAT, CM3, VEF) are executed on prefixes - the loop bodies are uniform - and, for C19, on concrete truncation sweeps of one well-formed file through the real decoder. Stubs: latin-1 identity of iotostr/strtoio/pack, short reads at end of file, ord('') raises, sys.exit / exceptions = failure reported, png.Writer records its arguments, PIL resize is a no-op. Trusted: reference decoders in vf/decsuite.py (CoCo 3 six-bit colour formula, nibble / bit-pair layouts, MAX mode tables and YIQ formula in scaled integers, pinned copy of the MGE composite table), z3.",
+        design="DESIGN.md §3 E1, §5 C19",
+    ),
     "C20": dict(
         engine="b09m",
         category=MC,
